@@ -135,7 +135,12 @@ def _task_long(task):
 def _ops_for(L):
     ps = sorted({0, 3, 8, 13, 16, L - 11, L - 8, L - 3, L} & set(range(L + 1)))
     ns = [0, 1, 5, 8, 11, 16, 24, L]
-    return [(p, n, k) for p in ps for n in ns if p + n <= L for k in ("int", "bytes")]
+    ops = [(p, n, k) for p in ps for n in ns if p + n <= L for k in ("int", "bytes")]
+    # the exact positions and widths of the seven CCSDS header fields (the object also offers them as cached properties)
+    for p, n in ((0, 3), (3, 1), (4, 1), (5, 11), (16, 2), (18, 14), (32, 16)):
+        if p + n <= L:
+            ops += [(p, n, "int"), (p, n, "bytes")]
+    return sorted(set(ops))
 
 
 def _task_histories(task):
@@ -162,7 +167,9 @@ def _task_histories(task):
                     bad = None
                     for step, oi in enumerate(hist):
                         if step == touch_at and length >= 6:
-                            _ = r.header_values, r.apid
+                            # every cached header property, by one route or another (str() uses them too)
+                            _ = (r.header_values, r.apid, r.data_length, r.sequence_count, r.sequence_flags, r.version_number, r.type,
+                                 r.secondary_header_flag, str(r))
                         pp, n, kind = ops[oi]
                         r.pos = pp
                         try:
